@@ -430,6 +430,20 @@ def run_symbolic(case, cfg, max_paths=2000, consts=False, seed=0, timeout_ms=Non
                 res['obligations'] += 1
     except PathLimit as e:
         res['unsupported'].append(str(e))
+    except BaseException as e:
+        if type(e).__name__ != 'HardTimeout':
+            raise
+        # hard wall-clock stop in the middle of a path: keep what the finished paths and the interrupted one have
+        # already established (candidate failures still go through the float replay); the configuration itself
+        # stays inconclusive
+        t = getattr(once, 't', None)
+        if t is not None:
+            res['obligations'] += t.obligations
+            res['discharged'] += t.discharged
+            res['unknown'] += t.unknown
+            res['failures'].extend(t.failures)
+        res['unsupported'].append(f'harness error HardTimeout: {e}')
+        return res
     fin = getattr(case, 'finish', None)
     if fin is not None and not res['unsupported']:
         # cross-path (aggregate) obligations, e.g. counting over the complete outcome space
